@@ -367,6 +367,9 @@ func replayMain(t *testing.T, def *PropDef) {
 		fmt.Fprintf(os.Stderr, "HARNESS: %v\n", err)
 		os.Exit(2)
 	}
+	if os.Getenv("DSIM_NOAVOID") != "" {
+		p.NoAvoid = true
+	}
 	o := runPlan(t, def, p)
 	for _, l := range o.Log {
 		fmt.Println("  " + l)
